@@ -830,6 +830,12 @@ for name, cases, shard in (("cases_small", coq_small, 60), ("cases_big", coq_big
                       replay_of(cloud, group, {"correspondence": "Model.Fermat.check_group", "info": info}),
                       failing_input_found=False)
 
+# ---- the glue model of the public functions (Model files added later, see manifest text) tied to the library on every run:
+#      inputs generated here, the library run on them, the model evaluated on the same inputs by vm_compute inside coqc
+import ties.tie_C01 as _tie_glue  # noqa: E402
+_tie_n = _tie_glue.run(chk, arim, rng, Q)
+chk.cov["glue_model_tie_comparisons"] = int(_tie_n or 0)
+
 chk.finish(
     evaluations=evaluations, distinct_nontrivial=len(nontrivial),
     rule="distinct (set sizes, cloud kind, dimension, hash of the times array) among solved paths with >= 2 legs, "
